@@ -93,7 +93,7 @@ def run_one(ri, rn, attrs):
     elem = ri.elem_for(rn)
     name = elem or "zzUnmapped"
     n = Node(name)
-    n._content = ri.valid_content(rn)
+    impl.set_content(n, ri.valid_content(rn))
     for k, v in attrs:
         n.add_attribute(k, v)
     for kn in ri.valid_kids(rn):
